@@ -52,7 +52,7 @@ def encode(obj):
       "(accepted classes: list, dict, gfapy.FieldArray)")
 
 def validate_all_printable(string):
-  if not re.match("^[ !-~]+$", string):
+  if not re.match(r"^[ !-~]+\Z", string):
     raise gfapy.FormatError(
       "{} is not a valid JSON field\n".format(repr(string))+
       "(it contains newlines, tabs and/or non-printable characters)")
